@@ -449,6 +449,9 @@ class ExprMixin:
                 i = z3.simplify(k.t).as_long()
                 if o.kind == 'val':
                     o = sv_ref(self.as_ref(o, st, 'subscript'), Obj(tcls))
+                if not (-len(tinfo.tuple_fields) <= i < len(tinfo.tuple_fields)):
+                    self.side_raise(st, 'IndexError', z3.BoolVal(True), 'tuple index out of range')
+                    return SV('val', self.fresh(Val, 'dead'), T.val)
                 return self.get_attr(o, tinfo.tuple_fields[i], st)
             raise Unsupported('tuple index')
         if o.kind == 'val' and (o.ty is None or o.ty.kind == 'val') and k.kind == 'str':
